@@ -56,6 +56,10 @@ func icFileWrite(fr *frame, args []value) value {
 	o, _ := args[0].(*opaque)
 	bs, _ := args[1].([]value)
 	if o != nil && o.kind == "os.Stdout" {
+		if m.stdoutBroken {
+			// verifStdoutBroken: the consumer of standard output has gone
+			return tuple{BV(0, 64), m.newError(fr.g, "write /dev/stdout: broken pipe")}
+		}
 		m.stdout = append(m.stdout, bs...)
 	} else if o == nil || o.kind != "os.Stderr" {
 		panic(pathAbort{"(*os.File).Write on a file other than os.Stdout/os.Stderr"})
